@@ -20,7 +20,7 @@ YOUR TASK
 1. Read the relevant llbuild sources and design ONE small, realistic change to the llbuild sources (lib/, include/, products/ — not the tests) that makes the property FALSE, in the way a plausible regression or careless refactoring would (a dropped check, a swapped operand or argument, a wrong comparison operator, a missing lock/notify, a skipped step on one path, an off-by-one, a forgotten field, two cooperating edits that each look fine alone ...).
 2. The change MUST still compile and ALL existing unit tests must still pass (`./run_tests.sh` must print PASSED for all seven binaries and exit 0).
 3. Prefer a change that needs something SPECIFIC to manifest — a particular interleaving, a crash or fault at a particular point, a multi-step sequence of builds/operations, an unusual input, or two cooperating sites — rather than one that ordinary use would expose at once.
-4. Write a DEMONSTRATION that fails with your change and passes without it: a small C++ program linked against the worktree's static libraries (./_build/lib/libllbuildCore.a, libllbuildBuildSystem.a, libllbuildBasic.a, libllbuildNinja.a, libllvmSupport.a, libLLVMDemangle.a, plus -lsqlite3 -lpthread -lcurses; compile with `clang++-16 -std=c++14 -fno-rtti -fno-exceptions -I include -include include/libstdc++14-workaround.h`), or a shell script driving ./_build/bin/llbuild (subcommands `ninja build`, `buildsystem build`, `buildengine ...`). Verify BOTH directions yourself: with the change the demonstration fails (non-zero exit / wrong output), and after `git stash` + rebuild it passes (then `git stash pop` + rebuild). If the breakage is timing dependent, make the demonstration deterministic (sleeps or hooks inside your demo program, fault injection through LD_PRELOAD, ...) or explain exactly what interleaving is needed and show it with a directed test.
+4. Write a DEMONSTRATION that fails with your change and passes without it: a small C++ program linked against the worktree's static libraries (./_build/lib/libllbuildCore.a, libllbuildBuildSystem.a, libllbuildBasic.a, libllbuildNinja.a, libllvmSupport.a, libLLVMDemangle.a, plus -lsqlite3 -lpthread -lcurses; compile with `clang++-16 -std=c++14 -fno-rtti -fno-exceptions -I include -include include/libstdc++14-workaround.h`), or a shell script driving ./_build/bin/llbuild (subcommands `ninja build`, `buildsystem build`, `buildengine ...`). Verify BOTH directions yourself: with the change the demonstration fails (non-zero exit / wrong output), and after reverting your change (save it with `git diff > /tmp/seed/{pid}{variant}-out/patch.diff`, revert with `git apply -R`, re-apply with `git apply`; do NOT use `git stash`: the stash is shared between worktrees of other agents) + rebuild it passes (then re-apply + rebuild). If the breakage is timing dependent, make the demonstration deterministic (sleeps or hooks inside your demo program, fault injection through LD_PRELOAD, ...) or explain exactly what interleaving is needed and show it with a directed test.
 5. Leave the worktree WITH your change applied (uncommitted), and write these files into /tmp/seed/{pid}{variant}-out/ :
    - patch.diff   : output of `git diff` in the worktree (source changes only; must apply with `git apply` to a clean checkout)
    - the demonstration source/script (e.g. demo.cc or demo.sh) plus run_demo.sh that builds and runs it from the worktree root (it may take the worktree root as $1, default the current directory) and exits 0 when the property holds / non-zero when it is violated
